@@ -386,6 +386,79 @@ impl Part for GraphVarTerm {
     }
 }
 
+/// Two sub-SELECTs in one query that are IDENTICAL EXCEPT FOR ONE MODIFIER (sort direction, LIMIT, DISTINCT, sort key,
+/// aggregate, projection) — whatever is remembered per sub-plan (memo keys, caches) must tell them apart.
+struct TwinSubqueries;
+impl Part for TwinSubqueries {
+    type Case = Case;
+    fn name(&self) -> &'static str {
+        "twin-subqueries"
+    }
+    fn cases(&self, tier: Tier) -> u32 {
+        tier.pick(1500, 30_000)
+    }
+    fn replay_repeats(&self) -> u32 {
+        5
+    }
+    fn strategy(&self, _tier: Tier) -> BoxedStrategy<Case> {
+        (proptest::collection::vec((0usize..8, 0usize..3), 3..10), 0u8..6, 1usize..4, any::<bool>(), any::<bool>(), any::<bool>())
+            .prop_map(|(ents, aspect, k, union, use_prefix, second_entry)| {
+                let e = |n: &str| Tm::Iri(format!("{NS}{n}"));
+                let (val, tag) = (e("val"), e("tag"));
+                let mut default = vec![];
+                let mut seen = std::collections::BTreeSet::new();
+                for (n, t) in ents {
+                    if seen.insert(n) {
+                        // distinct numeric values per entity: every ORDER BY ... LIMIT cut is determined
+                        default.push([e(&format!("n{n}")), val.clone(), Tm::Num(3 * n as i64 + 1)]);
+                        default.push([e(&format!("n{n}")), tag.clone(), Tm::Lit(["red", "green", "blue"][t].to_string())]);
+                    }
+                }
+                let data = DataSet { default, named: vec![] };
+                let v = |n: &str| PT::Var(n.to_string());
+                let var = |n: &str| ProjItem::Var(n.to_string());
+                let body = vec![Elem::Bgp(vec![[v("a"), PT::C(val.clone()), v("c")], [v("a"), PT::C(tag.clone()), v("b")]])];
+                let base = Select { distinct: false, proj: Proj::Items(vec![var("a"), var("c")]), from: vec![], from_named: vec![], body, group_by: vec![], order: vec![("c".to_string(), false)], limit: Some(k) };
+                let mut twin = base.clone();
+                let mut first = base;
+                match aspect {
+                    0 => twin.order = vec![("c".to_string(), true)],
+                    1 => twin.limit = Some(k + 1),
+                    2 => {
+                        first.proj = Proj::Items(vec![var("b")]);
+                        first.order = vec![("b".to_string(), false)];
+                        first.limit = None;
+                        twin = first.clone();
+                        twin.distinct = true;
+                    }
+                    3 => twin.order = vec![("a".to_string(), true)],
+                    4 => {
+                        first.proj = Proj::Items(vec![var("b"), ProjItem::Agg(AggKind::Min, "c".to_string(), "z".to_string())]);
+                        first.group_by = vec!["b".to_string()];
+                        first.order = vec![];
+                        first.limit = None;
+                        twin = first.clone();
+                        twin.proj = Proj::Items(vec![var("b"), ProjItem::Agg(AggKind::Max, "c".to_string(), "z".to_string())]);
+                    }
+                    _ => twin.proj = Proj::Items(vec![var("c"), var("a")]),
+                }
+                let subs = [Elem::Sub(Box::new(first)), Elem::Sub(Box::new(twin))];
+                let body = if union { vec![Elem::Union(vec![vec![subs[0].clone()], vec![subs[1].clone()]])] } else { vec![Elem::Group(vec![subs[0].clone()]), Elem::Group(vec![subs[1].clone()])] };
+                let query = Select { distinct: false, proj: Proj::Star, from: vec![], from_named: vec![], body, group_by: vec![], order: vec![], limit: None };
+                Case { data, query, use_prefix, second_entry }
+            })
+            .boxed()
+    }
+    fn check(&self, c: &Case) -> Outcome {
+        let mut o = check_case(c);
+        o.nontrivial = !o.classes.contains(&"answer-empty");
+        o
+    }
+    fn describe(&self, c: &Case) -> serde_json::Value {
+        json!({"query": Printer { use_prefix: c.use_prefix }.query(&c.query), "default_triples": c.data.default.len()})
+    }
+}
+
 fn main() {
     let mut s = Session::start(
         "C01",
@@ -404,5 +477,6 @@ fn main() {
     s.run(&OrderMixed);
     s.run(&CompositeKeys);
     s.run(&GraphVarTerm);
+    s.run(&TwinSubqueries);
     std::process::exit(s.finish());
 }
